@@ -602,6 +602,8 @@ impl Client {
         crate::verif::probe(&format!("cm_written:{id}"));
 
         let resp = self.wait_for_response(id, receiver, timeout)?;
+        #[cfg(feature = "verif-hooks")]
+        crate::verif::probe(&format!("cm_received:{id}"));
         Self::validate_response(id, resp)
     }
 
